@@ -14,6 +14,8 @@ structure DS where
   hasAfter : Bool := false
   coll : String := "?"
   bad : Nat := 0
+  envBad : Nat := 0      -- environment modes that contradict the model's envModeAfterMark
+  envSeen : Nat := 0
 
 def parseRef (s : String) : Val := match s.toNat? with | some n => .ref n | none => .imm
 
@@ -77,8 +79,8 @@ def check (st : DS) : String := Id.run do
       | some o, some o' => cleared := cleared + (o.entries.length - o'.entries.length)
       | _, _ => pure ()
   let stuck := m.stuck || m1.stuck || m3.stuck || !m.spill.isEmpty
-  let ok := missing == 0 && extra == 0 && dep == 0 && sweepDiff == 0 && !stuck && st.bad == 0
-  return s!"result ok={if ok then 1 else 0} collection={st.coll} nodes={n} modelmarked={nm} missing={missing} extra={extra} depthdep={dep} sweepdiff={sweepDiff} modelfreed={freed} weakcleared={cleared} stuck={if stuck then 1 else 0} parsebad={st.bad} opaque={if st.opq then 1 else 0} first={if first == "" then "-" else first}"
+  let ok := missing == 0 && extra == 0 && dep == 0 && sweepDiff == 0 && !stuck && st.bad == 0 && st.envBad == 0
+  return s!"result ok={if ok then 1 else 0} collection={st.coll} nodes={n} modelmarked={nm} missing={missing} extra={extra} depthdep={dep} sweepdiff={sweepDiff} modelfreed={freed} weakcleared={cleared} stuck={if stuck then 1 else 0} parsebad={st.bad} envmodes={st.envSeen} envbad={st.envBad} opaque={if st.opq then 1 else 0} first={if first == "" then "-" else first}"
 
 partial def loop (inp out : IO.FS.Stream) (st : DS) : IO Unit := do
   let line ← inp.getLine
@@ -92,6 +94,21 @@ partial def loop (inp out : IO.FS.Stream) (st : DS) : IO Unit := do
     let k := kind.toNat?.getD 0
     let bad := if id.toNat? == some st.objs.size then st.bad else st.bad + 1
     let fl := flags.toList
+    -- after the mark phase: a marked environment that is still on a stack must belong to a fiber whose status the model
+    -- does not detach (E<status>); a fiber the model does not detach has all its frame environments on its stack (F = on
+    -- this frame, X = not)
+    let marked := fl.contains 'm'
+    let envTok := rest.filter (fun t => t.startsWith "E")
+    let fibStatus := (rest.find? (fun t => t.startsWith "S")).bind (fun t => (t.drop 1).toString.toNat?)
+    let nX := (rest.filter (fun t => t.startsWith "X")).length
+    let nF := (rest.filter (fun t => t.startsWith "F")).length
+    let bad1 := if marked then (envTok.filter (fun t => match (t.drop 1).toString.toNat? with
+        | some s => detachOnMark s
+        | none => true)).length else 0
+    let bad2 := match fibStatus with
+      | some s => if marked && !detachOnMark s then nX else 0
+      | none => 0
+    let st := { st with envBad := st.envBad + bad1 + bad2, envSeen := st.envSeen + envTok.length + nX + nF }
     loop inp out { st with
       objs := st.objs.push (parseObj k rest),
       marked := st.marked.push (fl.contains 'm'),
